@@ -427,6 +427,10 @@ PROPS = {
               # reopen followed at once by a write that spans log blocks
               dict(driver="fault", args=["--nops", "12", "--positions", "30", "--large",
                                          "--reopen-heavy"], quick=3, thorough=30, one_per_proc=True),
+              # a failing WAL append of a GROUP commit (forced schedule: leader suspended with a
+              # follower in its group, one-shot fault): everybody gets his own result
+              dict(driver="sched", args=["--all"], quick=1, thorough=4, trace=CONC_TRACE,
+                   final_rc3=True),
               # read calls as faultable operations too (beyond the list in the quantifier)
               dict(driver="fault", args=["--nops", "18", "--positions", "60", "--read-faults"],
                    quick=3, thorough=30, one_per_proc=True)]),
